@@ -10,6 +10,7 @@ import codec
 import crash
 import dmg
 import flk
+import ntf
 import gens
 import kv
 import recov
@@ -543,6 +544,9 @@ reg(HistProp('C19', cfg_c19, probes_c19, quick=250, thorough=6000,
                   'queries checked by the same L0 checkers as on read-write handles, Publish/Delete on read-only handles must be '
                   'ErrReadonly; lock half: coverage.flock', nontrivial=has_multi_layout,
              also=('C01', 'C03', 'C04', 'C09'), extra=flk.c19_extra))
+reg(HistProp('C18', cfg_c01, probes_c03, quick=40, thorough=600,
+             rule='deterministic schedules: coverage.notify; the history part keeps Consume (what a woken waiter returns) tied',
+             nontrivial=has_multi_layout, extra=ntf.c18_extra))
 reg(HistProp('C20', cfg_c20, probes_c20, quick=400, thorough=12000,
              rule='Log.Backup into fresh directories and repeated into the same directory after publish-only steps; each backup is '
                   'checked (Segment.Check of every file), opened read-write or read-only and fully observed (scan, Get of every '
